@@ -72,6 +72,7 @@ class CounterStyle(dict):
             elif counter_name in previous_types:
                 return
             previous_types.append(counter_name)
+            extended_types = [counter_name]
 
             counter = self[counter_name].copy()
             if counter['system']:
@@ -85,12 +86,12 @@ class CounterStyle(dict):
                     extended_name = system
                     extended_counter = self[system]
                     counter['system'] = extended_counter['system']
-                    previous_types.append(system)
+                    extended_types.append(system)
                     if counter['system']:
                         extends, system, _ = counter['system']
                     else:
                         extends, system = None, 'symbolic'
-                    if extends and system in previous_types:
+                    if extends and system in extended_types:
                         # Styles in a cycle extend decimal. A style extending
                         # itself keeps its own descriptors.
                         extends, cycle_start = 'extends', system
